@@ -54,6 +54,10 @@ def matches_known(v, known):
         if any(p == v.get("input") or (p.endswith("*") and (v.get("input") or "").startswith(p[:-1]))
                for p in pats):
             return k
+        if k.get("what_fails_regex"):
+            import re
+            if re.search(k["what_fails_regex"], v.get("what_fails") or ""):
+                return k
     return None
 
 
